@@ -50,7 +50,14 @@ func (p *psTopic) peersDiff(ctx context.Context) (joining, leaving []peer.ID, er
 		return nil, nil, err
 	}
 
+	// a peer listed more than once is still one member
+	seen := map[peer.ID]struct{}{}
 	for _, m := range all {
+		if _, dup := seen[m]; dup {
+			continue
+		}
+		seen[m] = struct{}{}
+
 		if _, ok := oldMembers[m]; !ok {
 			joining = append(joining, m)
 		} else {
